@@ -101,6 +101,21 @@ func runWorkload(t *rapid.T, run c04Run, st *vfkit.Collector, label string) {
 		case 1, 2:
 			a.Delay = time.Duration(h[1]%5) * time.Millisecond
 		}
+		if q.Up.Kind == "udp" && h[3]%9 == 0 {
+			// a udp upstream truncates its answer to some questions: the proxy asks again over TCP, where the answer is
+			// whole - or, in the runs with failures, where the connection is closed on it for every other such question
+			if q.Transport == "udp" {
+				tm := KeyedAnswer(q.Msg, q.Up.Tag, uint32(q.Seq), run.ttl, 0)
+				tm.An = nil
+				tm.Bits |= vfkit.BitTC
+				a.Reply = EncodeMsg(tm)
+				return a
+			}
+			if run.cancelRich && h[3]%18 == 0 {
+				return UpAction{CloseBefore: true}
+			}
+			return a
+		}
 		if run.cancelRich {
 			switch {
 			case h[2]%61 == 0:
